@@ -19,6 +19,7 @@ func checkC19(c *Ctx) {
 
 	c.checkTagWrites()
 	c.checkSearchScope()
+	c.checkRewriteOnlyIndexed()
 	c.checkOwnerOnlyOps()
 }
 
